@@ -49,10 +49,7 @@ def who_may_call(run, F, E, rule, table):
     for (tk, m), allowed in table.items():
         fns = F.find(tk, m)
         for fn in fns:
-            got = set()
-            for cid in callers.get(fn.id, ()):
-                got.add(tk_short(F.fn(cid)))
-            extra = sorted(got - allowed)
+            extra = anchors.reached_only_from(F, E, fn, allowed)
             run.ob(rule, '%s::%s is called only from %s' % (tk, m, ', '.join('%s::%s' % a for a in sorted(allowed))), not extra,
                    where=fn.pat, detail=['%s::%s' % x for x in extra] or None, key='%s::%s has an unexpected caller' % (tk, m))
 
